@@ -214,6 +214,33 @@ impl<'a> Gen<'a> {
             },
             _ => {},
         }
+        // Twins, sometimes: a directory's subtree repeated under a sibling name, so that what a walk
+        // remembers from one directory (a name already found, a depth, a text) meets the same shape
+        // again next door.
+        if self.rng.chance(1, 10) {
+            let with_kids: Vec<String> = dirs
+                .iter()
+                .filter(|d| !d.is_empty() && tree.iter().any(|n| parent(&n.path) == d.as_str()))
+                .cloned()
+                .collect();
+            if !with_kids.is_empty() {
+                let d = self.rng.pick(&with_kids).clone();
+                let nm = *self.rng.pick(&self.names.clone());
+                let twin = join(parent(&d), nm);
+                let sub: Vec<Node> = tree.iter().filter(|n| is_below(&n.path, &d)).cloned().collect();
+                if !tree.iter().any(|t| t.path == twin) && sub.len() <= 12 {
+                    tree.push(Node { path: twin.clone(), kind: Kind::Dir, mode: None });
+                    dirs.push(twin.clone());
+                    for n in sub {
+                        let p = join(&twin, rel_to(&n.path, &d));
+                        if n.kind == Kind::Dir {
+                            dirs.push(p.clone());
+                        }
+                        tree.push(Node { path: p, kind: n.kind, mode: None });
+                    }
+                }
+            }
+        }
         // PATH_MAX: no absolute path of the world may come near 4096 bytes (a long name repeated
         // down a deep chain would), or the world could not even be built
         tree.retain(|n| n.path.len() <= 3000);
